@@ -256,6 +256,8 @@ class Exec(ExprMixin, StmtMixin, CallMixin):
             name, sort = p[0], p[1]
             if name.startswith('**'):
                 continue                                  # bound through ct.statics (verified for the stated keyword shape)
+            if name.startswith('*'):
+                name = name[1:]                           # *args declared with a sequence sort: any number of positional values
             v = const(sort, 'arg_' + name) if not isinstance(sort, PyVal) else sort
             st.env[name] = v
             self.assume_type_invariant(st, v)
